@@ -147,6 +147,12 @@ func pointerize(t, base reflect.Type, v reflect.Value) reflect.Value {
 			// t is not made of pointers to the type of v
 			return v
 		}
+		if v.Kind() == reflect.Ptr && cur.Elem() == v.Type().Elem() {
+			// v is a pointer already, of the unnamed twin (*T) of the named
+			// pointer type cur (type P *T)
+			v = v.Convert(cur)
+			break
+		}
 		levels = append(levels, cur)
 	}
 
